@@ -110,6 +110,15 @@ func BeginCall(n int) {
 	atomic.StoreInt64(&execBudget, 20_000_000)
 }
 
+// BeginExec resets the per-call counters for an Execute call. One Execute may
+// load and parse the same template many times (an include inside a loop), so only
+// the executor budget is meaningful here; parse termination is C01's business.
+func BeginExec() {
+	BeginCall(0)
+	atomic.StoreInt64(&lexBudget, 2_000_000_000)
+	atomic.StoreInt64(&parseBudget, 2_000_000_000)
+}
+
 // SetBudgets overrides budgets (used by checks whose one call loads several templates).
 func SetBudgets(lex, par, ex int64) {
 	atomic.StoreInt64(&lexBudget, lex)
